@@ -428,6 +428,44 @@ fn find_fn<'a>(src: &'a Src, name: &str) -> R<(&'a syn::Signature, &'a Block)> {
     Err(format!("fn {} not found in {}", name, src.path))
 }
 
+/// `impl FiemapReq { fn new() -> FiemapReq { FiemapReq { fm_start: .., fm_length: .., .. } } }`: the request every
+/// FIEMAP call starts from — the range of the file it asks the kernel to map
+fn fiemap_request(src: &Src) -> R<String> {
+    for it in &src.file.items {
+        if let Item::Impl(im) = it {
+            let ty = quote::ToTokens::to_token_stream(&im.self_ty).to_string().replace(' ', "");
+            if ty != "FiemapReq" { continue; }
+            for ii in &im.items {
+                if let ImplItem::Fn(f) = ii {
+                    if f.sig.ident != "new" { continue; }
+                    if f.block.stmts.len() != 1 { return Err("FiemapReq::new: one expression expected".into()); }
+                    let st = match &f.block.stmts[0] { Stmt::Expr(Expr::Struct(st), None) => st, _ => return Err("FiemapReq::new: struct literal expected".into()) };
+                    let mut start = None; let mut length = None; let mut flags = None;
+                    for fv in &st.fields {
+                        let name = quote::ToTokens::to_token_stream(&fv.member).to_string();
+                        let val = quote::ToTokens::to_token_stream(&fv.expr).to_string().replace(' ', "");
+                        let num = |v: &str| -> R<String> {
+                            if v == "u64::MAX" { return Ok("18446744073709551615".into()); }
+                            let d: String = v.chars().filter(|c| *c != '_').collect();
+                            if !d.is_empty() && d.chars().all(|c| c.is_ascii_digit()) { Ok(d) } else { Err(format!("FiemapReq::new: field value {} is not a literal", v)) }
+                        };
+                        match name.as_str() {
+                            "fm_start" => start = Some(num(&val)?),
+                            "fm_length" => length = Some(num(&val)?),
+                            "fm_flags" => flags = Some(num(&val)?),
+                            _ => {}
+                        }
+                    }
+                    let (start, length, flags) = (start.ok_or("fm_start")?, length.ok_or("fm_length")?, flags.ok_or("fm_flags")?);
+                    return Ok(format!("(* {}:{}  FiemapReq::new: the range of the file every FIEMAP request asks for, and its flags *)\nDefinition x_fiemap_req_start : N := {}.\nDefinition x_fiemap_req_length : N := {}.\nDefinition x_fiemap_req_flags : N := {}.\n",
+                                      src.path, f.block.span().start().line, start, length, flags));
+                }
+            }
+        }
+    }
+    Err("impl FiemapReq::new not found".into())
+}
+
 fn find_const(src: &Src, name: &str) -> Option<String> {
     struct V<'a> { name: &'a str, out: Option<String> }
     impl<'ast, 'a> Visit<'ast> for V<'a> {
@@ -2163,6 +2201,7 @@ fn main() {
                 .map(|(v, l)| format!("(* {}:{}  lseek: errnos that mean end of file *)\nDefinition x_lseek_eof_errnos : list N := {}.\n", src.path, l, nlist(&v))), &mut out);
             emit("fiemap", errno_eq(&src, "fiemap")
                 .map(|(v, l)| format!("(* {}:{}  fiemap: errnos that mean `extent maps unsupported` *)\nDefinition x_fiemap_unsupported_errnos : list N := {}.\n", src.path, l, nlist(&v))), &mut out);
+            emit("FiemapReq::new", fiemap_request(&src), &mut out);
             emit("FIEMAP_PAGE_SIZE", find_const(&src, "FIEMAP_PAGE_SIZE").ok_or("const not found".to_string())
                 .map(|v| format!("(* {}  const FIEMAP_PAGE_SIZE *)\nDefinition x_fiemap_page_size : N := {}.\n", src.path, v)), &mut out);
             emit("copy_node", let_method(&src, "copy_node", "dev").map(|(m, l)| {
